@@ -185,6 +185,20 @@ def oracle_c10(b, report):
         report('udf-tree', 'UDF tree differs from the one built: missing %s, unexpected %s'
                % (sorted(set(want) - set(got))[:3], sorted(set(got) - set(want))[:3]), None)
         return
+    # integrity counts and partition length "cover exactly what they describe"
+    integ, part = rd.udf.get('integrity'), rd.udf.get('partition')
+    if integ and part:
+        nfiles = sum(1 for e in want.values() if e['kind'] != 'dir')
+        ndirs = 1 + sum(1 for e in want.values() if e['kind'] == 'dir')
+        if integ['num_files'] != nfiles or integ['num_dirs'] != ndirs:
+            report('udf-integrity-counts', 'logical volume integrity descriptor counts %d files / %d directories, the tree holds %d / %d'
+                   % (integ['num_files'], integ['num_dirs'], nfiles, ndirs), None)
+        if integ['size_table'] and integ['size_table'][0] != part['length']:
+            report('udf-integrity-size', 'integrity size table says %s blocks, the partition descriptor %d' % (integ['size_table'], part['length']), None)
+        space = rd.pvd['space_size']
+        if part['start'] + part['length'] != space - 1:
+            report('udf-partition-length', 'partition [%d, %d) does not end right before the trailing anchor of a %d-sector volume'
+                   % (part['start'], part['start'] + part['length'], space), None)
     sizes = {op['blob']: op['size'] for op in b.ops if op['k'] == 'add_fp'}
     for p, e in want.items():
         n = got[p]
@@ -340,9 +354,44 @@ def oracle_c12(b, report, hy):
         return
     for m in rd.problems:
         if m.rule.startswith(('mbr-', 'gpt-', 'apm-')):
-            if m.rule == 'gpt-crc' and rd.hybrid and all(g.get('parts_crc_used_only_ok') for g in (rd.gpt.values() if hasattr(rd, 'gpt') else [])):
+            if m.rule == 'gpt-crc' and 'partition array CRC32 mismatch' in m.detail and 'matches' in m.detail:
+                report('gpt-parts-crc-over-used-entries-only', 'GPT PartitionEntryArrayCRC32 is computed over the used entries only, UEFI demands '
+                       'NumberOfPartitionEntries x SizeOfPartitionEntry bytes: %s' % m.detail, m.offset)
                 continue
             report('rule:' + m.rule, 'hybrid structure rule [%s] violated: %s' % (m.rule, m.detail), m.offset)
+    # GPT: primary and backup mirror each other and delimit the El Torito EFI / Mac images
+    gpt = rd.hybrid.get('gpt') if rd.hybrid else None
+    if gpt and gpt.get('primary') and gpt.get('secondary'):
+        pr, se = gpt['primary'], gpt['secondary']
+        last_lba = len(b.img) // 512 - 1
+        if pr['current_lba'] != 1 or pr['backup_lba'] != last_lba or se['current_lba'] != last_lba or se['backup_lba'] != 1:
+            report('gpt-mirror-lbas', 'GPT headers do not mirror each other: primary current/backup %d/%d, backup current/backup %d/%d, last LBA of '
+                   'the image %d' % (pr['current_lba'], pr['backup_lba'], se['current_lba'], se['backup_lba'], last_lba), None)
+        pp = [(p['index'], p['first_lba'], p['last_lba'], p['type_guid']) for p in pr['partitions']]
+        sp = [(p['index'], p['first_lba'], p['last_lba'], p['type_guid']) for p in se['partitions']]
+        if pp != sp:
+            report('gpt-mirror-partitions', 'primary and backup GPT partition arrays differ: %s vs %s'
+                   % ([x[:3] for x in pp], [x[:3] for x in sp]), None)
+        if (pr['first_usable_lba'], pr['last_usable_lba']) != (se['first_usable_lba'], se['last_usable_lba']):
+            report('gpt-mirror-usable', 'primary and backup GPT usable ranges differ', None)
+        et = rd.eltorito
+        if et is not None:
+            efis = [e for sec in et['sections'] if sec.get('platform_id') == 0xef for e in sec['entries']]
+            for k, e in enumerate(efis[:2]):
+                want = (e['load_rba'] * 4, e['load_rba'] * 4 + e['sector_count'] - 1)
+                part = [p for p in pr['partitions'] if p['index'] == k + 1]
+                if not part or (part[0]['first_lba'], part[0]['last_lba']) != want:
+                    report('gpt-partition-extent:%s' % ('efi' if k == 0 else 'mac'), 'GPT partition %d is %s, the El Torito %s image occupies LBAs %s'
+                           % (k + 1, (part[0]['first_lba'], part[0]['last_lba']) if part else None, 'EFI' if k == 0 else 'Mac', want), None)
+                mp = rd.hybrid['mbr']['partitions'][k + 1]
+                if (mp['lba_start'], mp['num_sectors']) != (want[0], e['sector_count']):
+                    report('mbr-partition-extent:%s' % ('efi' if k == 0 else 'mac'), 'MBR entry %d is (%d, %d), the El Torito image is (%d, %d)'
+                           % (k + 2, mp['lba_start'], mp['num_sectors'], want[0], e['sector_count']), None)
+    apm = rd.hybrid.get('apm') if rd.hybrid else None
+    if apm:
+        if any(a['block_count'] == 0 for a in apm[1:]):
+            report('apm-entries-empty', 'Apple partition map entries describe empty partitions (start/count 0): %s'
+                   % [(a['name'], a['start_block'], a['block_count']) for a in apm], None)
     img = b.img
     heads = hy.get('geometry_heads', 64)
     sects = hy.get('geometry_sectors', 32)
